@@ -87,7 +87,7 @@ PATTERNS = [
     (r"\bvalidate_not_cpi_by_stack_height\s*\(", lambda m: "not_cpi"),
     (r"\bvalidate_not_cpi_with_sysvar\s*\(", lambda m: "not_cpi_sysvar"),
     (r"\.account_flags\s*=[^=]", lambda m: "copy_flags"),
-    (r"MarginfiError::AccountAlreadyMigrated\b", lambda m: "migrated_check"),
+    (r"check_eq!\s*\(\s*\w+\s*\.\s*migrated_to\s*,\s*Pubkey::default\s*\(\)", lambda m: "migrated_check"),
     (r"\.migrated_to\s*=[^=]", lambda m: "set_migrated_to"),
     (r"\.lending_account\s*=\s*LendingAccount::zeroed", lambda m: "zero_array"),
     (r"\.lending_account\s*=\s*(?!LendingAccount::zeroed)[^=\s]", lambda m: "move_array"),
